@@ -199,12 +199,12 @@ func HarnessC19EnvPairs() {
 	n := 1 + vndChoice(2)
 	s := ""
 	keys := []string{"a", "b", " a", ""}
-	vals := []string{"v", "%41", "%4", "a%2Cb", " w ", "x=y"}
+	vals := []string{"v", "%41", "%4", "a%2Cb", " w ", "x=y", "v%20", "%09v"}
 	for i := 0; i < n; i++ {
 		if i > 0 {
 			s += ","
 		}
-		s += keys[vndChoice(4)] + "=" + vals[vndChoice(6)] + vndString(1)
+		s += keys[vndChoice(4)] + "=" + vals[vndChoice(8)] + vndString(1)
 	}
 	vndReach("pairs")
 	c19CheckEnv(s)
